@@ -735,7 +735,8 @@ def gen_herm_term(rng, kind, want_y=True, cplx=True, dof_per_element=False):
     return t
 
 
-def gen_ccomposed(rng, kinds=None, ctype=None, holo=None, nterms=None, freeze=None, cplx_data=False, herm=False):
+def gen_ccomposed(rng, kinds=None, ctype=None, holo=None, nterms=None, freeze=None, cplx_data=False, herm=False,
+                  defaults="random"):
     """compositions over a latent tree with COMPLEX leaves and complex-valued forward models"""
     nterms = nterms or (len(kinds) if kinds else rng.choice([1, 1, 1, 2, 2, 3]))
     freeze = (rng.random() < 0.3) if freeze is None else freeze
@@ -759,7 +760,10 @@ def gen_ccomposed(rng, kinds=None, ctype=None, holo=None, nterms=None, freeze=No
             t["model"].pop("lazy", None)
         if t["kind"] in EXACT_T:
             r = rng.random()
-            if r < 0.2:
+            if defaults != "random":
+                if defaults:
+                    t["defaults"] = defaults
+            elif r < 0.2:
                 t["defaults"] = True
             elif r < 0.45:
                 t["defaults"] = "outer"
@@ -918,9 +922,11 @@ def run(ctx):
         cases.append(gen_composed(rng))
     # round 2: complex-valued forward models in front of every likelihood that takes complex data, every stage type
     for k in ("gaussian", "studentt", "vcgauss"):
-        for ct in G.CTYPES:
+        for ci, ct in enumerate(G.CTYPES):
             for _ in range(ctx.n(1, 4)):
-                cases.append(gen_ccomposed(rng, kinds=[k], ctype=ct, cplx_data=True, freeze=False))
+                # the defaults of `Likelihood` on the whole composition ("outer") / on the base (True) in a fixed rota
+                cases.append(gen_ccomposed(rng, kinds=[k], ctype=ct, cplx_data=True, freeze=False,
+                                           defaults=["outer", None, True, "outer", None][ci]))
     for _ in range(ctx.n(6, 80)):
         cases.append(gen_ccomposed(rng))
     # dense Hermitian (non-real) noise operators: plain and behind a complex forward model (oracle only)
